@@ -29,6 +29,9 @@ type UDPRec struct {
 	Events []UDPEvent
 	nAssoc int
 	Real   service.UDPMetrics
+	// SlowRemove: the removal report takes this long (a slow metrics back end): the caller stays
+	// between "the association has ended" and its removal from the table for that time.
+	SlowRemove time.Duration
 }
 
 type udpConnRec struct {
@@ -66,6 +69,9 @@ func (c *udpConnRec) AddPacketFromTarget(status string, targetProxyBytes, proxyC
 }
 func (c *udpConnRec) RemoveNatEntry() {
 	c.ev("remove", "", 0, 0)
+	if c.r.SlowRemove > 0 && vrt.Active() {
+		vrt.Sleep(c.r.SlowRemove)
+	}
 	if c.real != nil {
 		c.real.RemoveNatEntry()
 	}
@@ -82,6 +88,10 @@ type UDP struct {
 	Returned bool
 	socks  map[string]*vnet.UDPConn
 	extraPC []net.PacketConn
+	// ViaManager: the proxy sockets are handles obtained from a service.ListenerManager (as in the
+	// server) instead of plain sockets.
+	ViaManager bool
+	mgr        service.ListenerManager
 	extraTh []*vrt.Thread
 }
 
@@ -94,7 +104,15 @@ func NewUDP(keys []*Key, natTimeout time.Duration, real service.UDPMetrics) *UDP
 
 // Start binds the proxy socket (as the system under test) and runs Handle on a thread.
 func (w *UDP) Start() {
-	pc, err := vnet.ListenPacket("udp", ProxyUDP)
+	var pc net.PacketConn
+	var err error
+	if w.ViaManager {
+		// the way the server obtains its sockets: a handle on the listener manager's shared socket
+		w.mgr = service.NewListenerManager()
+		pc, err = w.mgr.ListenPacket(ProxyUDP)
+	} else {
+		pc, err = vnet.ListenPacket("udp", ProxyUDP)
+	}
 	if err != nil {
 		panic(err)
 	}
@@ -108,7 +126,13 @@ func (w *UDP) Start() {
 // StartExtra binds one more proxy socket served by the SAME packet handler (a service with
 // several UDP listeners): a second Handle loop on a second thread.
 func (w *UDP) StartExtra(addr string) {
-	pc, err := vnet.ListenPacket("udp", addr)
+	var pc net.PacketConn
+	var err error
+	if w.ViaManager {
+		pc, err = w.mgr.ListenPacket(addr)
+	} else {
+		pc, err = vnet.ListenPacket("udp", addr)
+	}
 	if err != nil {
 		panic(err)
 	}
